@@ -3,24 +3,24 @@
 From CM Require Import Harness.RunBase Model.Exit Spec.ExitSpec Proofs.ExitFacts Generated.Tables.
 
 Definition tables : exit_tables :=
-  mkT exit_chain write_report_status_used argparse_error_code exit_checked_groups max_workers_validated.
+  mkT exit_chain write_report_status_used argparse_error_code exit_checked_groups max_workers_validated semgrep_targets_filtered.
 
-(** world <-> 13 numbers: argparse (0 Args, 1 ParseErr, 2 EarlyExit0), bad_workers, bad_line, dir_exists,
-    sarif (0 Ok, 1 Duplicate, 2 NotFound, 3 Malformed), miss_issues, miss_hotspots, miss_dd, miss_contrast, ai_consistent, output, write_ok, write_partial *)
+(** world <-> 14 numbers: argparse (0 Args, 1 ParseErr, 2 EarlyExit0), bad_workers, bad_line, dir_exists,
+    sarif (0 Ok, 1 Duplicate, 2 NotFound, 3 Malformed), miss_issues, miss_hotspots, miss_dd, miss_contrast, ai_consistent, output, write_ok, write_partial, unreadable_target *)
 Definition nb (b : bool) : N := if b then 1%N else 0%N.
 Definition bn (n : N) : bool := negb (N.eqb n 0).
 Definition world_code (w : world) : list N :=
   [match w_argparse w with Args => 0 | ParseErr => 1 | EarlyExit0 => 2 end; nb (w_bad_workers w); nb (w_bad_line w); nb (w_dir_exists w);
    match w_sarif w with SarifOk => 0 | SarifDuplicate => 1 | SarifNotFound => 2 | SarifMalformed => 3 end;
    nb (w_miss_issues w); nb (w_miss_hotspots w); nb (w_miss_dd w); nb (w_miss_contrast w); nb (w_ai_consistent w);
-   nb (w_output w); nb (w_write_ok w); nb (w_write_partial w)]%N.
+   nb (w_output w); nb (w_write_ok w); nb (w_write_partial w); nb (w_unreadable_target w)]%N.
 Definition world_of_code (l : list N) : world :=
   let g i := nth i l 0%N in
   {| w_argparse := match g 0%nat with 0 => Args | 1 => ParseErr | _ => EarlyExit0 end%N;
      w_bad_workers := bn (g 1%nat); w_bad_line := bn (g 2%nat); w_dir_exists := bn (g 3%nat);
      w_sarif := match g 4%nat with 0 => SarifOk | 1 => SarifDuplicate | 2 => SarifNotFound | _ => SarifMalformed end%N;
      w_miss_issues := bn (g 5%nat); w_miss_hotspots := bn (g 6%nat); w_miss_dd := bn (g 7%nat); w_miss_contrast := bn (g 8%nat);
-     w_ai_consistent := bn (g 9%nat); w_output := bn (g 10%nat); w_write_ok := bn (g 11%nat); w_write_partial := bn (g 12%nat) |}.
+     w_ai_consistent := bn (g 9%nat); w_output := bn (g 10%nat); w_write_ok := bn (g 11%nat); w_write_partial := bn (g 12%nat); w_unreadable_target := bn (g 13%nat) |}.
 
 (** (world code, exit status, exception escaped, what is at the --output path: 0 nothing new / 1 a file that is not a
     complete JSON document / 2 a complete JSON document) *)
@@ -65,12 +65,12 @@ Definition clear_line (w : world) : world :=
   {| w_argparse := w_argparse w; w_bad_workers := w_bad_workers w; w_bad_line := false; w_dir_exists := w_dir_exists w;
      w_sarif := w_sarif w; w_miss_issues := w_miss_issues w; w_miss_hotspots := w_miss_hotspots w; w_miss_dd := w_miss_dd w;
      w_miss_contrast := w_miss_contrast w; w_ai_consistent := w_ai_consistent w; w_output := w_output w;
-     w_write_ok := w_write_ok w; w_write_partial := w_write_partial w |}.
+     w_write_ok := w_write_ok w; w_write_partial := w_write_partial w; w_unreadable_target := w_unreadable_target w |}.
 Definition clear_workers (w : world) : world :=
   {| w_argparse := w_argparse w; w_bad_workers := false; w_bad_line := w_bad_line w; w_dir_exists := w_dir_exists w;
      w_sarif := w_sarif w; w_miss_issues := w_miss_issues w; w_miss_hotspots := w_miss_hotspots w; w_miss_dd := w_miss_dd w;
      w_miss_contrast := w_miss_contrast w; w_ai_consistent := w_ai_consistent w; w_output := w_output w;
-     w_write_ok := w_write_ok w; w_write_partial := w_write_partial w |}.
+     w_write_ok := w_write_ok w; w_write_partial := w_write_partial w; w_unreadable_target := w_unreadable_target w |}.
 Definition as_documented (w : world) (rc : Z) (rep : N) : bool :=
   negb (reaches_malformed w) && Z.eqb rc (documented w) && report_conforms w (rep_of_code rep).
 Definition attrib_line_ok (c : exit_case) : bool :=
@@ -83,7 +83,7 @@ Definition clear_contrast (w : world) : world :=
   {| w_argparse := w_argparse w; w_bad_workers := w_bad_workers w; w_bad_line := w_bad_line w; w_dir_exists := w_dir_exists w;
      w_sarif := w_sarif w; w_miss_issues := w_miss_issues w; w_miss_hotspots := w_miss_hotspots w; w_miss_dd := w_miss_dd w;
      w_miss_contrast := false; w_ai_consistent := w_ai_consistent w; w_output := w_output w;
-     w_write_ok := w_write_ok w; w_write_partial := w_write_partial w |}.
+     w_write_ok := w_write_ok w; w_write_partial := w_write_partial w; w_unreadable_target := w_unreadable_target w |}.
 Definition attrib_contrast_ok (c : exit_case) : bool :=
   let '(wc, rc, tb, rep) := c in let w := world_of_code wc in
   w_miss_contrast w && negb tb && as_documented (clear_contrast w) rc rep.
